@@ -58,7 +58,9 @@
      * C17_khc_funct_lipschitz   KHCTree::funct = (k(pos,.) - k(neg,.)) * m_normalInvNorm is 1-Lipschitz for the feature-
                                  space distance k(x,x) - 2k(x,y) + k(y,y) of ANY kernel k with non-negative squared feature
                                  distances (KPos) and Cauchy-Schwarz for feature differences (KCS) - hypotheses on k;
-     * C17_linear_kernel_psd     the linear kernel satisfies KPos and KCS (the polynomial kernel: NOT proved, see below);
+     * C17_linear_kernel_psd, C17_poly2_kernel_psd
+                                 the linear kernel and PolynomialKernel(degree 2, offset c >= 0) (the two kernels of the
+                                 khc / khc2 streams) satisfy KPos and KCS and are symmetric;
      * C17_gen_next_invariant, C17_proj_query_k_smallest_dataset
                                  IterativeNNQuery over an arbitrary ordered carrier and ANY BinaryTree whose bound is sound
                                  (C17_next_invariant / C17_query_k_smallest_dataset generalised: the proof uses nothing but
@@ -101,18 +103,28 @@
          (build_float_ties, counted, the real tree is then only checked by pwf_treeb and the search monitor);
      * floating point: the theorems are about exact arithmetic; for the doubles of a real tree the unit-norm hypothesis holds
        up to 1e-16 only (nodes_norm_gt_1 in the evidence), the approximate sqrt of the driver enters the construction tie;
-     * the polynomial kernel (khc2 stream) is not proved to satisfy KPos / KCS: its trees are covered by the correspondence
-       run and the exhaustive-search monitor, the theorems apply to it under these two hypotheses;
+     * kernels other than the linear and the degree-2 polynomial kernel: the theorems apply under the hypotheses KPos / KCS
+       (and symmetry for the construction), which are not proved for them;
      * std::nth_element itself and the two std::partition calls (modelled as stable partitions) are not
        verified; kd thresholds: the model halves with Z division, exact on the doubled integer coordinates the
        correspondence run uses, the C++ computes 0.5*(max+min) in double; the depth limit 2^32-1 and
        TreeConstruction with maxDepth / bucket size > 1 are outside the construction models;
-     * bucket sizes > 1, NearestNeighborModel predictions: exhaustive-search monitor only. *)
+     * NearestNeighborModel: PROVED (C17_vote_rearrangement_invariant, C17_vote_knear_unique, C17_vote_backends_agree): the
+       prediction as coded (uniform / 1/distance weights, zero-distance rule, division by the weight sum, first maximal
+       score, single score thresholded at 0; regression mean) depends only on the multiset of (distance, label) pairs of the
+       neighbours, two sets of k nearest neighbours coincide when there is no tie at the k-th distance, hence both back-ends
+       predict the same then.  REFUTED for ties (C17_vote_backend_tie_refuted): with a tie at the k-th distance both back-
+       ends return valid neighbours with equal distances and the predictions differ (observed on every quick run, reported
+       as an observation with the smallest example, not hidden).  The tie to the C++ is again a correspondence run: the
+       extracted C17Vote functions, in exact rational arithmetic on the neighbour list each real back-end returned, vs the
+       scores / decision / mean of NearestNeighborModel (1e-12; decisions whenever no two different scores are within
+       rounding of the maximum); a monitor checks that each back-end returns k nearest neighbours;
+     * bucket sizes > 1: exhaustive-search monitor only (known finding F4). *)
 From Coq Require Import List ZArith QArith Permutation.
 From SharkV Require Import C17Model C17Proofs C17Build C17BuildProofs C17BuildIndepProofs.
 From SharkV Require Import C17Field C17Gen C17Proj C17ProjProofs C17ProjExamples.
 From SharkV Require Import C17ProjBuild C17ProjBuildProofs C17ProjChooseProofs C17ProjBuildExamples.
-From SharkV Require Import C17Vote C17VoteProofs.
+From SharkV Require Import C17Vote C17VoteProofs C17KernelProofs.
 From SharkV Require C17GenProofs.
 Import ListNotations.
 Open Scope Z_scope.
@@ -274,6 +286,15 @@ Theorem C17_linear_kernel_psd :
   KPos A F (lin_k A F) (dimdom A dim) /\ KCS A F (lin_k A F) (dimdom A dim).
 Proof. exact lin_kernel_psd. Qed.
 Print Assumptions C17_linear_kernel_psd.
+
+(* PolynomialKernel(degree 2, offset c >= 0), k(x,y) = (<x,y> + c)^2 = <x (x) x, y (x) y> + 2c <x,y> + c^2, satisfies them too
+   (sums, non-negative multiples, pull-backs and constants preserve KPos / KCS), and it is symmetric *)
+Theorem C17_poly2_kernel_psd :
+  forall (A : Type) (F : fops A), olaws F -> forall (dim : nat) (c : A), oleb F (o0 F) c = true ->
+  KPos A F (poly2_k A F c) (dimdom A dim) /\ KCS A F (poly2_k A F c) (dimdom A dim) /\
+  (forall x y : apoint A, poly2_k A F c x y = poly2_k A F c y x).
+Proof. exact poly2_kernel_psd. Qed.
+Print Assumptions C17_poly2_kernel_psd.
 
 (* one call of IterativeNNQuery::next() over an arbitrary ordered carrier: C17_next_invariant generalised; the only
    facts about the tree are in the invariant (Sound: every node bound <= distance of every point below, leaf key =
